@@ -43,3 +43,21 @@ From HC Require Import Map3.Ops3 Map3.Tx3Proofs.
 Theorem C06_step3 `{Sig} : forall fa st o e, fst (step3 fa st o) = RErr e -> snd (step3 fa st o) = st.
 Proof. exact step3_err_noop. Qed.
 Print Assumptions C06_step3.
+
+(** Non-vacuity: a 2-sew whose second vertex merge is made to fail (fault index 1) after the links and the
+    first merge have been written into the log really returns an error, and the dump of the map is unchanged;
+    without the fault the same call succeeds and changes the map. *)
+From Coq Require Import ZArith Floats Uint63. Import ListNotations.
+From HC Require Import Extract.Tok Extract.Run2.
+Definition c06_st : state2 :=
+  exec2 None (empty2 4 (kinds_of_mask 1))
+    [Force (Link1 1 2); Force (Link1 3 4);
+     Force (WriteVertex 1 (PrimFloat.of_uint63 0, PrimFloat.of_uint63 0)); Force (WriteVertex 2 (PrimFloat.of_uint63 1, PrimFloat.of_uint63 0));
+     Force (WriteVertex 3 (PrimFloat.of_uint63 1, PrimFloat.of_uint63 0)); Force (WriteVertex 4 (PrimFloat.of_uint63 0, PrimFloat.of_uint63 0));
+     Force (@WriteAttr sig_f64 0 1 5%Z); Force (@WriteAttr sig_f64 0 2 6%Z); Force (@WriteAttr sig_f64 0 3 7%Z); Force (@WriteAttr sig_f64 0 4 8%Z)].
+Example C06_fault_in_the_middle :
+  (exists e, fst (step2 (Some 1) c06_st (Force (Sew2 1 3))) = RErr e) /\
+  toks_eqb (dump2 (compact2 (snd (step2 (Some 1) c06_st (Force (Sew2 1 3)))))) (dump2 (compact2 c06_st)) = true /\
+  fst (step2 None c06_st (Force (Sew2 1 3))) = ROk 0 /\
+  toks_eqb (dump2 (compact2 (snd (step2 None c06_st (Force (Sew2 1 3)))))) (dump2 (compact2 c06_st)) = false.
+Proof. vm_compute. split; [eexists; reflexivity|]. repeat split; reflexivity. Qed.
